@@ -351,6 +351,8 @@ class World:
                 cfg.load_tree(value_to_py(cinco, ev["tree"], None, self.root))
             elif op == "Reset":
                 cinco.reset_value(cfg, ".".join(list(seq(ev["p"])) + [ev["k"]]))
+            elif op == "CopyTree":
+                cfg.load_tree(self.cfgs[ev["src"]].to_tree())
             elif op == "Validate":
                 cfg.validate()
             elif op == "ValidateCollect":
